@@ -41,3 +41,22 @@ fn('emmet.config:merged_data', props=P,
    # merging never modifies the built-in tables or the caller's dictionaries: nothing but the fresh result is written
    modifies=[], allocates=True,
    locals={'result': 'map', 'empty': 'map'})
+
+# Config.__init__: which type/syntax the layers are taken for, and that each section is the layered merge
+# (the Config class itself is declared in contracts/markup.py)
+fn('emmet.config:Config.__init__', props=P,
+   params={'self': 'Config', 'user_config': 'map', 'global_config': 'map'}, returns='none',
+   requires=[],
+   ensures=["same(self.type, (at(user_config, 'type') if has(user_config, 'type') else 'markup'))",
+            # an explicit syntax wins; otherwise the default syntax of the type ('html' for an unknown type)
+            "implies(has(user_config, 'syntax'), same(self.syntax, at(user_config, 'syntax')))",
+            "implies(not has(user_config, 'syntax') and not has(user_config, 'type'), self.syntax == 'html')",
+            "layered(self.options, self.type, self.syntax, 'options', user_config, global_config)",
+            "layered(self.snippets, self.type, self.syntax, 'snippets', user_config, global_config)",
+            "layered(self.variables, self.type, self.syntax, 'variables', user_config, global_config)",
+            'fresh(self.options) and fresh(self.snippets) and fresh(self.variables)',
+            'self.user_config is user_config'],
+   # only the new object is written: the caller's dictionaries and the built-in tables are untouched
+   modifies=['self.type', 'self.syntax', 'self.user_config', 'self.context', 'self.variables', 'self.snippets',
+             'self.options', 'self.cache'],
+   allocates=True)
